@@ -74,13 +74,14 @@ PROPS = {
     "C13": wire_prop("C13", ["decoders_local", "parse_local", "parse_depends_only_on_value", "reparse", "fuel_irrelevant", "parse_probe_agree", "parse_open_agree"],
                      ["c13"], {"assumptions": ["the agreement theorems cover 'parser accepts => probe and open report the same size and bytes'; the probe accepting more than the recursive parser is by design"]}),
     "C01": writer_prop("C01", ["parse_exact", "probe_exact", "list_roundtrip", "msg_field_found", "msg_field_absent",
-                                "msg_enumerates_written", "absent_reads_zero"], ["c01"],
-                       {"assumptions": ["partial: writer_refines_layout (the writer state machine emits encList/encMsg of the children) is checked on every generated program by the drivers (REF-MISMATCH), not by a theorem",
+                                "msg_enumerates_written", "absent_reads_zero", "writer_refines_layout",
+                                "written_tree_reads_back"], ["c01"],
+                       {"assumptions": ["writer_refines_layout covers the API programs of value trees (compRoot); Copy/Merge of opened messages is covered by the stream only",
                                         "message tags below 2^16 and total sizes below 2^32 (MsgWF); float32 laws (FloatLaws)"]}),
     "C08": writer_prop("C08", ["type_codes", "fixed_width_big_endian", "string_layout", "varint_widths", "list_big_iff",
-                                "list_type_code", "msg_big_iff", "msg_table_sorted", "readable_by_library"], ["c08", "golden"],
+                                "list_type_code", "msg_big_iff", "msg_table_sorted", "readable_by_library", "bytes_depend_only_on_tree"], ["c08", "golden"],
                        {"diff_violation": c08_bytes_differ,
-                        "assumptions": ["partial: independence from the initial buffer content is checked by the wp:/wd/wr/wpool streams, not by a theorem"]}),
+                        "assumptions": ["independence from the initial buffer content is a theorem (bytes_depend_only_on_tree); reuse after failure and pooling are compared by the wd/wr/wpool streams"]}),
     "C12": writer_prop("C12", ["sticky_write", "sticky_element", "sticky_field", "sticky_end", "sticky_fieldAny", "sticky_begin",
                                 "sticky_queries", "fail_keeps_first", "fail_records", "free_safe", "after_free_sticky",
                                 "reset_clean", "closed_handle", "double_end", "no_panic", "no_panic_from"], ["c12"],
